@@ -40,6 +40,9 @@ def plan(tier, seed):
         cases.append({"mode": "walk", "seed": seed, "idx": i, "cfg": {"n": 1 + i % 3, "async": i % 4 == 3, "foreign": i % 5 == 0, "hc": i % 3 == 1, "ext": i % 2 == 1, "sp": (i // 2) % 4 if i % 6 == 5 else 0, "veto": (seed * 100000 + i + 1) if i % 5 == 2 else 0, "restart2": i % 4 == 1, "orders_first": (i // 3) % 3, "lose_reply": i % 8 == 6}, "len": 10 + i % 5})
     for i in range(3):
         cases.append({"mode": "subscription", "idx": i})
+    # directed cases for the listed finding C11-placement-answer-never-arrives (synchronous and asynchronous placement)
+    for asy in (False, True):
+        cases.insert(0, {"mode": "events", "cfg": {"n": 1, "async": asy, "lose_reply": "all"}, "events": [["place", 0], ["resp", 0], ["resp", 0], ["resp", 0], ["resp", 0], ["snap"]]})
     # directed case for the listed finding C11-restart-replaced-bet
     cases.insert(0, {"mode": "events", "cfg": {"n": 1, "async": False}, "events": [["place", 0], ["resp", 0], ["fill", 0, 0.4], ["snap"], ["replace", 0], ["resp", 0], ["snap"], ["restart"]]})
     return cases
@@ -83,7 +86,8 @@ class Run:
         if cfg.get("lose_reply"):
             # the answer to the first attempt of a placement is lost on its way back (the exchange has booked the bets); the library
             # sends the request again
-            self.ex.plan = lambda rec: ({"lose_reply": True} if rec["kind"] == "PLACE" and rec["attempt"] == 1 and not rec.get("memo_hit") else None)
+            every = cfg["lose_reply"] == "all"  # "all": no attempt is ever answered (the bets exist at the exchange all the same)
+            self.ex.plan = lambda rec: ({"lose_reply": True} if rec["kind"] == "PLACE" and (every or rec["attempt"] == 1) and not rec.get("memo_hit") else None)
         if cfg.get("veto"):
             # a trading control added by the application refuses some cancel / update / replace requests (seeded); a refused request
             # leaves the order as it was
@@ -319,6 +323,8 @@ def judge(run, out):
     st = w.strategies[0]
     restarted = run.restarted
     tags = {"restarted": restarted, "async": bool(run.cfg.get("async")), "replaced": bool(run.replaced)}
+    if run.cfg.get("lose_reply") == "all":
+        tags["reply_never_arrived"] = True  # (mechanism tag of the listed finding C11-placement-answer-never-arrives)
     known_hash = st.name_hash
     local = list(m.blotter) if m is not None else []
     by_bet = {}
